@@ -11,7 +11,8 @@ for mid in sorted(os.listdir(os.path.join(BASE, "seeded"))):
         continue
     meta = json.load(open(mp))
     if meta.get("status", "").startswith("discarded"):
-        print(f"| {mid} | {meta.get('summary', '')[:140]} | discarded: equivalent on the fixed tree |")
+        st = meta["status"] if len(meta["status"]) > 12 else "discarded: equivalent on the fixed tree"
+        print(f"| {mid} | {(meta.get('summary', '') or '').replace('|', '/')[:140]} | {st.replace('|', '/')} |")
         continue
     r = res.get(mid, {})
     caught = ", ".join(r.get("caught_by", [])) or ("**not caught**" if r else "(not run)")
